@@ -428,11 +428,8 @@ private:
                                 , int         plane
                                 )
    {
-       ///@todo: why is
-       /// using row_buffer_helper_t = Buffer;
-       /// not working? I get compiler error with MSVC10.
-       /// read_stripped_data IS working.
-       using row_buffer_helper_t = detail::row_buffer_helper_view<View>;
+       // the tile holds pixels of the file's type, not of the destination's
+       using row_buffer_helper_t = Buffer;
 
        using it_t = typename row_buffer_helper_t::iterator_t;
 
@@ -551,11 +548,8 @@ private:
                             , int         plane
                             )
    {
-       ///@todo: why is
-       /// using row_buffer_helper_t = Buffer;
-       /// not working? I get compiler error with MSVC10.
-       /// read_stripped_data IS working.
-       using row_buffer_helper_t = detail::row_buffer_helper_view<View>;
+       // the tile holds pixels of the file's type, not of the destination's
+       using row_buffer_helper_t = Buffer;
 
        using it_t = typename row_buffer_helper_t::iterator_t;
 
